@@ -240,13 +240,8 @@ package xlsx
 //@ func (*Reader) TextWithOptions results (txt, err)
 //@   property C17
 //@   flags nosafety
-//@   requires forall k int :: {r.sheets[k]} 0 <= k && k < len(r.sheets) ==> !isnil(r.sheets[k])
 //@   count delims: WriteString(s) when $ord == 6
 //@   callsite WriteString#7(s) requires value_of_the_cell_in_place: s == sheet.Rows[rowIdx][colIdx].Value
-//@   loop 0:
-//@     invariant forall k int :: {sheets[k]} 0 <= k && k < len(sheets) ==> !isnil(sheets[k])
-//@   loop 1:
-//@     invariant forall k int :: {sheets[k]} 0 <= k && k < len(sheets) ==> !isnil(sheets[k])
 //@   loop 2:
 //@     step one_delimiter_between_fields: delims == prev(delims) + (len(row) > 0 ? len(row) - 1 : 0)
 //@   loop 3:
